@@ -180,7 +180,18 @@ func (h *hydrex) Save(ctx context.Context, indexName string, domain string, item
 
 	// iterating through the new items
 	for key, data := range items {
-		if _, ok := existingCoreData[key]; !ok {
+		if existing, ok := existingCoreData[key]; ok {
+			// The key is already indexed for this domain, so the reverse index stays as it is,
+			// but a changed value still has to be stored: GetCoreData must return the last
+			// saved items.
+			if existing.Value != data.Value {
+				itemsForSave = append(itemsForSave, &CoreData{
+					Key:       key,
+					Value:     data.Value,
+					CreatedAt: existing.CreatedAt,
+				})
+			}
+		} else {
 
 			// array for saving new items
 			itemsForSave = append(itemsForSave, &CoreData{
